@@ -91,14 +91,16 @@ def timeseries_contract(L, average):
     """evaluate_lml: backward filtering of the data; each term is log p(y_k | y_{k+1..N})."""
 
     def wrap(target):
-        def f(u, seq, std, *, i):
+        def f(u, seq, std, *, i, solver):
             import probdiffeq.backend.linalg as LA
 
+            if solver == "default":  # the documented default: the least-squares solve (noise-free data at t0)
+                return target(average_pdfs=average, tcoeff_index=i)(u, posterior=seq, std=std)
             return target(average_pdfs=average, tcoeff_index=i, solve_triu=LA.solve_triu)(u, posterior=seq, std=std)
 
         return f
 
-    def ensures(res, u, seq, std, *, i):
+    def ensures(res, u, seq, std, *, i, solver="explicit"):
         import probdiffeq.backend.linalg as LA
 
         Nn = seq.conditional.A.shape[0]
@@ -125,7 +127,7 @@ def timeseries_contract(L, average):
             m, P = rv.mean_flat, cov(L, rv)
             stdk = std[k]
             model = rv.to_derivative(i, stdk)
-            observed, bwd = model.revert(rv, solve_triu=LA.solve_triu)
+            observed, bwd = model.revert(rv, solve_triu=LA.lstsq_svd if solver == "default" else LA.solve_triu)  # memoised contract call
             S = L.mm(L.mm(E, P), L.T(E)) + _noise_cov(L, stdk, d)
             y = _data_flat(L, u[k])
             val, clk = N.logpdf_spec(L, observed, y)
@@ -141,13 +143,14 @@ def timeseries_contract(L, average):
 
     def instances(tier):
         out = []
-        for Nn, n, d, i in [(1, 2, 1, 0), (2, 2, 1, 1)] + ([(2, 2, 2, 0), (3, 2, 1, 0)] if tier == "thorough" else []):
-            def make(rng, Nn=Nn, n=n, d=d, i=i):
+        fam = [(1, 2, 1, 0, "explicit"), (2, 2, 1, 1, "default"), (1, 1, 2, 0, "default")] + ([(2, 2, 2, 0, "explicit"), (3, 2, 1, 0, "default")] if tier == "thorough" else [])
+        for Nn, n, d, i, solver in fam:
+            def make(rng, Nn=Nn, n=n, d=d, i=i, solver=solver):
                 seq = make_sequence(L, rng, Nn, n, d, reverse=True)
                 u = jnp.asarray(rng.normal(size=(Nn + 1, d)))
                 std = jnp.asarray(rng.uniform(0.5, 2.0, size=(Nn + 1,) if L is IsoL else (Nn + 1, d)))
-                return (u, seq, std), {"i": i}
-            out.append(Instance(f"N={Nn},n={n},d={d},i={i}", make, positive=lambda a, k: G._scalings()(a, k) + [a[2]]))
+                return (u, seq, std), {"i": i, "solver": solver}
+            out.append(Instance(f"N={Nn},n={n},d={d},i={i}" + (",default-solver" if solver == "default" else ""), make, positive=lambda a, k: G._scalings()(a, k) + [a[2]]))
         return out
 
     cs = [G.BY_LAYOUT[L.tag]["marginalise"], G.BY_LAYOUT[L.tag]["revert"], N.BY_LAYOUT[L.tag]["logpdf_flat"]]
